@@ -156,6 +156,15 @@ HAND = [
     ('nested-multi', 'if 1:\n    a = 1\nelse:\n    a = 2\nif 2:\n    b = a\nelse:\n    b = 3\n    a = 4\nb\na\n', [(10, 1), (11, 1)]),
     ('while-carried', 'a = 0\nwhile a:\n    if a:\n        a = 1\n    else:\n        b = a\n        a = 2\na\n', [(6, 13), (8, 1)]),
     ('import-star-two', 'from m1 import *\nfrom m2 import *\nx1\nx2\n', [(3, 2), (4, 2)]),
+    ('self-assign-two-classes', 'class A:\n    def foo(self): pass\nclass B:\n    def foo(self): pass\nclass S:\n    def a(self):\n        self.x = A()\n    def b(self):\n        self.x = B()\n    def c(self):\n        self.x.foo\n        self.x\n', [(11, 18), (12, 14)]),
+    ('self-assign-same-object', 'class A:\n    def foo(self): pass\nclass S:\n    def a(self, o):\n        self.x = o\n        self.y = A()\n    def b(self, o):\n        self.x = self.y\n        self.x = A()\n    def c(self):\n        self.x.foo\n', [(11, 18)]),
+    # package listings: a directory of modules without __init__.py, a package, the top level
+    ('listing-namespace-dir', 'from nsdir import \n', [(1, 18)]),
+    ('listing-namespace-dir-prefix', 'from nsdir import n\n', [(1, 19)]),
+    ('listing-package', 'from pk import \n', [(1, 15)]),
+    ('listing-dotted', 'import pk.\n', [(1, 10)]),
+    ('listing-top-prefix', 'import m\n', [(1, 8)]),
+    ('listing-relative', 'from . import \n', [(1, 14)]),
     ('except-names', 'try:\n    pass\nexcept ValueError as e:\n    x = e\nexcept TypeError as e:\n    x = e\nelse:\n    x = None\nx\n', [(9, 1)]),
 ]
 
